@@ -1,7 +1,7 @@
 """C06: closed-position-set analysis never claims a reachable event unreachable."""
 from . import core
 from .common import diff_streams, parse_kv
-from .deciders import GOALS, program_stream, judge_refutations
+from .deciders import GOALS, program_stream, judge_refutations, escalate, event_happens
 
 LEVEL = "proof"
 
@@ -56,6 +56,9 @@ def check(rep, tier, seed, replay):
         total += len(lines)
         samples += lines[:1]
         core.log(f"[C06] {name}: {len(lines)} cases, {len(items)} 'true' answers, {len(bad)} contradicted by L0")
+    if all_mism and not any(v.get("found_input") for v in rep.violations):
+        escalate(rep, all_mism, lambda o: o == "true",
+                 lambda line, out, f: event_happens(line.split(" ")[0].split("_", 1)[1], f), seed)
     for m in all_mism[:200]:
         rep.violation("correspondence", m, found_input=False)
     rep.add_counts(total, len(distinct))
